@@ -369,6 +369,15 @@ def priors_native(vc):
     want = sum(by_var[v][0].logpdf(theta[v]) for v in range(n_total))
     got = J(theta)
     vc.ensures("joint_value_is_sum_of_named_log_densities", abs(got - want) <= 1e-8 * max(1.0, abs(want)))
+    # value and gradient depend on the VALUES passed only: one parameter buffer evaluated, updated in place, evaluated again
+    theta_b = np.array([by_var[v][0].ppf(rng.uniform(0.05, 0.95)) for v in range(n_total)])
+    buf = theta_b.copy()
+    v_b, g_b = J(buf), np.array(J.gradient(buf), dtype=float)
+    buf[:] = theta
+    vc.ensures("value_and_gradient_follow_a_buffer_updated_in_place",
+               abs(J(buf) - want) <= 1e-8 * max(1.0, abs(want)) and bool(np.allclose(J.gradient(buf), J.gradient(theta.copy()), rtol=1e-12, atol=0))
+               and abs(v_b - sum(by_var[v][0].logpdf(theta_b[v]) for v in range(n_total))) <= 1e-8 * max(1.0, abs(v_b))
+               and bool(np.array_equal(g_b, np.array(J.gradient(theta_b.copy()), dtype=float))))
     g = J.gradient(theta)
     ok = True
     for v in range(n_total):
